@@ -179,6 +179,8 @@ func Render(c *Case) map[string]string {
 		if has("nested") {
 			fmt.Fprintf(&sb, "  %sKind dk = 18 [default = KIND_A];\n", lbl)
 		}
+		// integer literals as defaults of floating-point fields
+		fmt.Fprintf(&sb, "  %sdouble di = 27 [default = 10];\n  %sfloat fi = 28 [default = -3];\n", lbl, lbl)
 	}
 	if has("required") {
 		if s == "proto2" {
